@@ -124,7 +124,22 @@ def gen_c05(ctx, n):
                   Line(d0 + datetime.timedelta(days=60), t, "SELL", gen.dec_str(sell), "2", "GBP", None)]
             if rng.random() < 0.5: ls.append(Line(d0 + datetime.timedelta(days=70), t, "BUY", "500", "1", "GBP", None))
             kind = "split-edge"
+        elif r < 0.84:                        # a sale matched forward across a split/consolidation, and a further sale before the split
+            t = "AAA"; d0 = gen.start_date(rng); k = rng.choice(["SPLIT", "UNSPLIT"]); ra = rng.choice(["2", "4", "5", "10"])
+            h = F(rng.choice([100, 200, 40])); a = h * rng.choice([F(1, 2), F(1), F(1, 4)])
+            left = h - a
+            b = rng.choice([left, left + 1, left / 2, F(1), left + a]) if left > 0 else rng.choice([F(1), a])
+            d1 = d0 + datetime.timedelta(days=rng.choice([35, 90]))
+            d2 = d1 + datetime.timedelta(days=rng.choice([0, 1, 2, 5]))
+            ds = d2 + datetime.timedelta(days=rng.choice([0, 1, 5]))
+            de = ds + datetime.timedelta(days=rng.choice([0, 1, 10, 15]))
+            c = a * (F(ra) if k == "SPLIT" else 1 / F(ra)) * rng.choice([F(1), F(2), F(1, 2)])
+            ls = [Line(d0, t, "BUY", gen.dec_str(h), "1", "GBP", None), Line(d1, t, "SELL", gen.dec_str(a), "2", "GBP", None),
+                  Line(d2, t, "SELL", gen.dec_str(b), "2", "GBP", None), Line(ds, t, k, ra), Line(de, t, "BUY", gen.dec_str(c), "3", "GBP", None)]
+            if rng.random() < 0.3: ls.append(Line(de + datetime.timedelta(days=rng.choice([1, 20])), t, "SELL", gen.dec_str(c), "2", "GBP", None))
+            kind = "forward-across-split"
         else: kind = "asis"
+        if kind == "asis" and rng.random() < 0.08: ls = gen.gen_awkward_exact(rng); kind = "awkward-exact"
         cases["h%d:%s" % (i, kind)] = ls
         ctx.count("c05_history_kind", kind)
     return cases
@@ -463,14 +478,18 @@ def k_c09(ctx):
 
 # ---------- C10 ----------
 def rescale_twin(lines, sp):
-    """ledger in post-split units: remove split line sp, multiply quantities of its security dated <= its date by r, divide unit prices"""
+    """ledger in post-split units: remove split line sp, multiply quantities of its security dated <= its date by r, divide unit prices.
+    None when a rescaled quantity or price is not an exact decimal (the twin could not be written down without truncation)."""
     r = K.ratio_of(sp); t = sp.tick.upper(); out = []
     for l in lines:
         if l is sp: continue
         if l.tick.upper() == t and l.date <= sp.date:
-            if l.kind in ("BUY", "SELL"): out.append(l.copy(a=gen.dec_str(F(l.a) * r), v=gen.dec_str(F(l.v) / r)))
-            elif l.kind in ("CAPRETURN", "ACCUMULATION"): out.append(l.copy(a=gen.dec_str(F(l.a) * r)))
-            elif l.kind in ("SPLIT", "UNSPLIT") and l.date == sp.date and False: out.append(l)
+            if l.kind in ("BUY", "SELL"):
+                if not (classes._repr28(F(l.a) * r) and classes._repr28(F(l.v) / r)): return None
+                out.append(l.copy(a=gen.dec_str(F(l.a) * r), v=gen.dec_str(F(l.v) / r)))
+            elif l.kind in ("CAPRETURN", "ACCUMULATION"):
+                if not classes._repr28(F(l.a) * r): return None
+                out.append(l.copy(a=gen.dec_str(F(l.a) * r)))
             else: out.append(l)
         else: out.append(l)
     return out
@@ -480,7 +499,7 @@ def k_c10(ctx):
     groups = {}
     srcs = [(k, v) for k, v in K.corpus_ledgers().items() if classes.has_splits(v)]
     for i in range(ctx.n(1500, 25000)):
-        ls = gen.gen_ledger(rng, splits=0.22, events=rng.choice([0, 0, 0.1]), frac_ratio=0.25)
+        ls = gen.gen_awkward_exact(rng) if rng.random() < 0.1 else gen.gen_ledger(rng, splits=0.22, events=rng.choice([0, 0, 0.1]), frac_ratio=0.25)
         if not classes.has_splits(ls):
             t = ls[0].tick; d = rng.choice(ls).date
             ls = ls + [Line(d, t, rng.choice(["SPLIT", "UNSPLIT"]), rng.choice(gen.RATIOS))]
@@ -491,10 +510,11 @@ def k_c10(ctx):
         vs = {}
         for j, sp in enumerate(sps[:3]):
             # rescaling is exact only if the ratio is a terminating decimal
-            try: vs["rescale%d" % j] = rescale_twin(base, sp)
-            except Exception: pass
+            tw = rescale_twin(base, sp)
+            if tw is not None: vs["rescale%d" % j] = tw
+            else: ctx.count("rescale_twin_skipped(not an exact decimal)", True)
         # SPLIT r immediately followed by UNSPLIT r changes nothing
-        t = rng.choice(K.ticks_of(base)); d = rng.choice(base).date; r = rng.choice(gen.RATIOS + gen.FRAC_RATIOS)
+        t = rng.choice(K.ticks_of(base)); d = rng.choice(base).date; r = rng.choice(gen.RATIOS + gen.FRAC_RATIOS + gen.AWKWARD_RATIOS)
         ins = [Line(d, t, "SPLIT", r), Line(d, t, "UNSPLIT", r)]
         pos = rng.randint(0, len(base)); vs["cancel"] = base[:pos] + ins + base[pos:]
         groups[gid] = {"base": base, "vars": vs, "sps": sps}
@@ -512,6 +532,8 @@ def k_c10(ctx):
             a = compare.canon_rust(base["report"]); b = compare.canon_rust(rr["report"])
             shape = classes.kf_nonadjacent_same_day_sells(g["base"]) or classes.kf_nonadjacent_same_day_sells(g["vars"][n])
             d = money_diffs(a, b, shape)
+            # every share count exact in both ledgers (and the twin's quantities written without truncation): the counts must agree exactly
+            tolq = F(0) if not resid else TOLQ
             # quantities: same legs structure; quantities dated <= split date scaled by r
             if n.startswith("rescale") and not d:
                 sp = g["sps"][int(n[7:])]; r = K.ratio_of(sp); t = sp.tick.upper(); z = sp.date.toordinal()
@@ -521,15 +543,15 @@ def k_c10(ctx):
                         if [(l["rule"], l["acq"]) for l in da["legs"]] != [(l["rule"], l["acq"]) for l in db["legs"]]:
                             d.append(("legs", (da["date"], da["tick"]), "shape")); continue
                         for la, lb in zip(da["legs"], db["legs"]):
-                            if abs(la["qty"] * k - lb["qty"]) > TOLQ * max(1, abs(lb["qty"])): d.append(("legs", (da["date"], da["tick"], la["rule"], str(la["qty"] * k)), str(lb["qty"])))
+                            if abs(la["qty"] * k - lb["qty"]) > tolq * max(1, abs(lb["qty"])): d.append(("legs", (da["date"], da["tick"], la["rule"], str(la["qty"] * k)), str(lb["qty"])))
                 ha = {h["tick"]: h for h in a["holdings"]}; hb = {h["tick"]: h for h in b["holdings"]}
                 if set(ha) != set(hb): d.append(("holdings", sorted(ha), sorted(hb)))
                 else:
                     for tk in ha:
-                        if abs(ha[tk]["qty"] - hb[tk]["qty"]) > TOLQ * max(1, abs(ha[tk]["qty"])): d.append(("holdings", (tk, "qty", str(ha[tk]["qty"])), str(hb[tk]["qty"])))
+                        if abs(ha[tk]["qty"] - hb[tk]["qty"]) > tolq * max(1, abs(ha[tk]["qty"])): d.append(("holdings", (tk, "qty", str(ha[tk]["qty"])), str(hb[tk]["qty"])))
                         if not compare.near(ha[tk]["cost"], hb[tk]["cost"]): d.append(("holdings", (tk, "cost", float(ha[tk]["cost"])), float(hb[tk]["cost"])))
             elif n == "cancel" and not d:
-                d = rep_diffs(a, b, strict_shape=False, what=("legs", "cost", "proceeds", "holdings", "totals", "years"))
+                d = compare.compare_reports(a, b, what=("legs", "cost", "proceeds", "holdings", "totals", "years"), exact_qty=not resid)
             if d:
                 known = load_known_text("C10", "kf_event_after_split") if d5 else None
                 fails.append((d[0][0], "%s: %s" % (n, d[0][1:]), known))
